@@ -1,7 +1,6 @@
 package px
 
 import (
-	"encoding/json"
 	"fmt"
 	"os"
 	"os/exec"
@@ -393,8 +392,7 @@ func init() {
 					work = os.TempDir()
 				}
 				f := fmt.Sprintf("%s/c17-%d.json", work, idx)
-				b, _ := json.Marshal(&DriverReq{Prog: p, Kind: "comp-exit", Argv: args, CompLine: compLine, Zsh: zsh})
-				os.WriteFile(f, b, 0o644)
+				WriteDriverReq(f, &DriverReq{Prog: p, Kind: "comp-exit", Argv: args, CompLine: compLine, Zsh: zsh})
 				cmd := exec.Command(self, "-driver", f)
 				var stderr strings.Builder
 				cmd.Stderr = &stderr
